@@ -147,29 +147,29 @@ func runC03(c *engine.Ctx) {
 	} else {
 		c.Analysed(engine.FuncName(setup))
 		statusF := c.P.Field(ra, "statusOperation", "status")
-		okT := false
+		// every way a status gets stored (one store of a variable, or one store per branch)
+		full, part, wrong := false, false, false
 		for _, st := range engine.StoresTo([]*ssa.Function{setup}, statusF) {
-			ph, isPhi := engine.Strip(st.Val).(*ssa.Phi)
-			if !isPhi {
-				continue
-			}
-			full, part := false, false
-			for i, e := range ph.Edges {
+			for _, o := range engine.ValueOutcomes(engine.Strip(st.Val), st.Block()) {
 				var complete, known bool
-				for _, cd := range engine.BlockConds(ph.Block().Preds[i]) {
+				for _, cd := range o.Conds {
 					if call, ok := cd.V.(*ssa.Call); ok && call.Call.StaticCallee() != nil && call.Call.StaticCallee().Name() == "FinishTracking" {
 						complete, known = cd.Pol, true
 					}
 				}
-				if known && complete && isConstNamed(c, e, "RequestCompletedFull") {
+				isFull := isConstNamed(c, o.V, "RequestCompletedFull")
+				isPart := isConstNamed(c, o.V, "RequestCompletedPartial")
+				switch {
+				case known && complete && isFull:
 					full = true
-				}
-				if known && !complete && isConstNamed(c, e, "RequestCompletedPartial") {
+				case known && !complete && isPart:
 					part = true
+				default:
+					wrong = true
 				}
 			}
-			okT = full && part
 		}
+		okT := full && part && !wrong
 		c.Decide(r5, engine.FuncName(setup)+"|full-or-partial", setup.Pos(), okT, "FinishTracking true -> RequestCompletedFull, false -> RequestCompletedPartial", "the final status is not full exactly when no link was missing")
 	}
 	qe := "responsemanager/queryexecutor"
